@@ -11,6 +11,10 @@ import z3
 ALPHA = ["", "\x00", "\\", "(", ".", "*", "\n", "é", "\U0001F600", "0", "-", "a", "5", " ", "_", "٣"]
 
 
+ESCAPES = ["\\u0048", "\\u{48}", "\\u{0048}", "\\x48", "\\x4", "\\110", "\\n", "\\t", "\\\\u{48}", "C:\\users\\u0041lice",
+           "\\U00000048", "\\u004", "\\u{}", "\\u{110000}", "\\u00e9\\u{1F600}", "\\"]
+
+
 def strings(maxlen=2):
     out = [""]
     for n in range(1, maxlen + 1):
@@ -86,11 +90,25 @@ def run(group="rel", shard=0, nshards=1, budget_s=60, known_labels=()):
         for a in S2[:120]:
             for i, n in itertools.product(idx, idx):
                 cases.append(("StrSubstr", a, i, n))
+    elif group == "esc":
+        # exhaustive: every string of length <= 5 over the characters Z3's escape syntax is made of - as a constant it must
+        # reach Z3 as exactly those characters, and come back from a model as exactly those characters
+        esc_alpha = ["\\", "u", "{", "}", "x", "4", "8", "5", "c"]
+        for n_ in range(1, 6):
+            for t in itertools.product(esc_alpha, repeat=n_):
+                a = "".join(t)
+                if "\\" in a:
+                    cases.append(("literal", a, None, None))
     elif group == "misc":
         for a in S1 + S2[:80]:
             cases.append(("StrLen", a, None, None))
             cases.append(("StrToInt", a, None, None))
             cases.append(("literal", a, None, None))
+        # every escape syntax a Z3 string literal knows, written as PLAIN characters in a claripy constant
+        for a in ESCAPES:
+            cases.append(("literal", a, None, None))
+            cases.append(("StrLen", a, None, None))
+            cases.append(("StrConcat", a, "z", None))
         for v in [0, 1, 9, 10, 255, 2 ** 63, 2 ** 64 - 1, 12345678901234567890]:
             cases.append(("IntToStr", v, None, None))
         for a, b, c_ in itertools.product(S1[:14], S1[:10], S1[:6]):
